@@ -10,10 +10,10 @@ Property C07, about the model `Compiler.universalSet` of
 Status: the size / distinctness / length clause is PROVED for all `N`, `k`
 (`C07_size`); the generation clause is REFUTED for every odd `k ≥ 3` and every
 `N > k` (`C07_refuted_odd`, hence `C07_refuted`); for even `k` generation is
-kernel-checked for `N ≤ 4` (`C07_even_partial`) and decided per `(N,k)` by the
-verified closure checker in the harness — the all-`N` universality for even `k`
-(the theorem of arXiv:2408.03294) is NOT proved.  The classifier clause is not a
-Lean statement; the harness evaluates it on the implementation.
+kernel-checked for `N ≤ 4` here (`C07_even_partial`) and PROVED for every even
+`k` and every `N` in `Properties/C07Even.lean` (`C07_even_universal`,
+`C07_generation_iff_even`: generation holds iff `k` is even).  The classifier
+clause is not a Lean statement; the harness evaluates it on the implementation.
 
 Vocabulary: `Closure.Clo G` is the commutator closure on interleaved bit lists
 (`Spec/Clo.lean`); a Pauli string `p` is represented there by `p.bits`.
@@ -191,9 +191,9 @@ theorem generates_of_count {N k : Nat} (hkN : k ≤ N)
 
 /-- **C07, generation clause, partial**: for the even block sizes with `N ≤ 4`
 (`(3,2)`, `(4,2)`) the closure of the universal set is the set of all
-non-identity strings.  Missing: every even `k` for every `N` (the universality
-theorem of arXiv:2408.03294 — not proved; decided per `(N,k)` up to `N = 8` by
-the compiled checker in the harness). -/
+non-identity strings, by kernel evaluation of the verified closure checker.
+Every even `k` for every `N` is proved in `Properties/C07Even.lean`
+(`C07_even_universal`); this theorem is kept as an independent anchor. -/
 theorem C07_even_partial :
     (∀ v : V, v.length = 2 * 3 → v ≠ zeroV 3 → Clo (uBits 3 2) v) ∧
     (∀ v : V, v.length = 2 * 4 → v ≠ zeroV 4 → Clo (uBits 4 2) v) :=
